@@ -1,5 +1,6 @@
 import BarterModel.Lemmas.Stale
 import BarterModel.Lemmas.Orders
+import BarterModel.Lemmas.Review1
 import BarterModel.Lemmas.KernelsAgree.RegistersSM
 /-!
 # C09 — Late or duplicate exchange messages never roll engine state back
@@ -9,6 +10,10 @@ asset (`strict = false`), the last traded price and the top of book of an instru
 (`strict = true`), and — via the C01 model — the open-order details of a tracked order
 (`strict = false`). `deliver strict h ms` delivers the message list `ms` (any order, any
 duplicates) to a register holding `h`.
+**Open-order details**: the register statement holds PER TRACKING EPISODE of an order (section "Added
+after the independent review" at the end: `order_details_episode_register`,
+`order_details_carry_max_within_episode`); across episodes the code rolls back
+(`order_details_roll_back_witness`; known finding `clause=ord_resurrected`).
 -/
 namespace BarterModel.Props.C09
 open BarterModel.Stale BarterModel.Orders
@@ -447,5 +452,109 @@ functions and are not translated. The statement is that of
 theorem state_machine_agrees_with_source :
     type_of% BarterModel.KernelsAgree.RegistersSM.registers_sm_agree :=
   BarterModel.KernelsAgree.RegistersSM.registers_sm_agree
+
+/-! ## Added after the independent review (audit/REVIEW-notes.md, item C09-1)
+
+The order-report clause over the FULL report alphabet. Vocabulary (Lemmas/Review1.lean): `EpisodeEv` =
+an open report of any kind (any timestamp, any filled quantity — including "nothing left to fill"), a
+terminal report (cancelled / fully filled / failed / expired), a cancel request sent, a cancel response
+ok / err; `EpisodeEv.ends q` = the events after which the order is no longer tracked (they END a
+tracking episode); `heldMeta` = this file's `metaOf`; `episodeRegister` = the `<=` register that is
+EMPTIED by every event that ends an episode. What is true — and proved — is the property **per
+tracking episode**; across episodes the code rolls back (`order_details_roll_back_witness`): it keeps
+no memory of finished client order ids, so a stale open report that arrives after a terminal one is
+taken for a new order. That is recorded as the known finding `clause=ord_resurrected` of this check
+(the spec driver states the property literally and the real code fails it on exactly these
+histories). -/
+
+/-- (order reports, full alphabet) For EVERY history of open reports of any kind, terminal reports,
+cancel requests and cancel responses on one order — any order of delivery, duplicates, stale reports —
+starting untracked or exchange-confirmed, the open-order details held are those of the `<=` register
+over the open reports delivered SINCE THE LAST EVENT THAT ENDED A TRACKING EPISODE, and the state stays
+exchange-confirmed. -/
+theorem order_details_episode_register (m : Orders) (c : Nat) (q p : Rat) (evs : List EpisodeEv)
+    (hc : ExchangeConfirmed (stateOf m c)) :
+    heldMeta (stateOf (run m (evs.map (EpisodeEv.toOp c q p))) c) =
+      (episodeRegister q ((heldMeta (stateOf m c)).map openMsg) evs).map (·.2) ∧
+    ExchangeConfirmed (stateOf (run m (evs.map (EpisodeEv.toOp c q p))) c) :=
+  episode_register m c q p evs hc
+
+/-- the episode register after an event that ends an episode forgets everything before it -/
+theorem episodeRegister_after_end (q : Rat) (h : Option (Msg Open)) (pre post : List EpisodeEv)
+    (e : EpisodeEv) (he : e.ends q = true) :
+    episodeRegister q h (pre ++ e :: post) = episodeRegister q none post := by
+  simp [episodeRegister, List.foldl_append, episodeStep, he]
+
+/-- (order reports, positive statement for the CURRENT episode) Whatever happened before — any history
+`pre` over the full alphabet — once an event `e` has ended a tracking episode, the details held after
+any further open reports (something left to fill), cancel requests and failed cancels `post` carry the
+greatest exchange timestamp among the open reports delivered SINCE `e`, with a value delivered with
+that timestamp (the last delivered among ties): nothing older than a report of the current episode is
+ever held. Reports delivered BEFORE `e` do not count — that is exactly what
+`order_details_roll_back_witness` shows to be a violation of the literal property. -/
+theorem order_details_carry_max_within_episode (m : Orders) (c : Nat) (q p : Rat)
+    (pre post : List EpisodeEv) (e : EpisodeEv) (he : e.ends q = true)
+    (hpost : ∀ ev ∈ post, ev.ends q = false) (hc : ExchangeConfirmed (stateOf m c)) :
+    heldMeta (stateOf (run m ((pre ++ e :: post).map (EpisodeEv.toOp c q p))) c) =
+      (deliver false none ((episodeReports post).map openMsg)).map (·.2) ∧
+    (episodeReports post ≠ [] →
+      ∃ r, heldMeta (stateOf (run m ((pre ++ e :: post).map (EpisodeEv.toOp c q p))) c) = some r ∧
+        r ∈ episodeReports post ∧ ∀ x ∈ episodeReports post, x.t ≤ r.t) := by
+  have h1 := (episode_register m c q p (pre ++ e :: post) hc).1
+  rw [episodeRegister_after_end q _ pre post e he, episodeRegister_no_end q none post hpost] at h1
+  refine ⟨h1, ?_⟩
+  intro hne
+  obtain ⟨r, hr, hmem, hmax⟩ := carries_max false ((episodeReports post).map openMsg) (by simpa using hne)
+  obtain ⟨x, hx, rfl⟩ := List.mem_map.mp hmem
+  refine ⟨x, by rw [h1, hr]; rfl, hx, ?_⟩
+  intro y hy
+  simpa [openMsg] using hmax (openMsg y) (List.mem_map.mpr ⟨y, hy, rfl⟩)
+
+/-- (order reports, the FIRST episode) the same from a fresh or exchange-confirmed order when nothing
+has ended an episode yet: extends `open_reports_with_cancels_register` by failed cancel responses in
+between (a failed cancel restores the details, it never loses or ages them). -/
+theorem order_details_first_episode (m : Orders) (c : Nat) (q p : Rat) (evs : List EpisodeEv)
+    (hne : ∀ ev ∈ evs, ev.ends q = false) (hc : ExchangeConfirmed (stateOf m c)) :
+    heldMeta (stateOf (run m (evs.map (EpisodeEv.toOp c q p))) c) =
+      (deliver false ((heldMeta (stateOf m c)).map openMsg) ((episodeReports evs).map openMsg)).map (·.2) := by
+  have h1 := (episode_register m c q p evs hc).1
+  rw [episodeRegister_no_end q _ evs hne] at h1
+  exact h1
+
+/-- (order reports, C09-1) **the roll-back, kernel-checked.** Reports `Open(t = 5)`, `Cancelled`,
+`Open(t = 2)` (a late duplicate) for client order id 7: after the first report the engine holds
+open-order details with timestamp 5; after the third it holds open-order details with timestamp 2,
+although a report with timestamp 5 WAS delivered for that order. Delivered in another order
+(`Open 2, Open 5, Cancelled`) the same three messages leave the order untracked: the end state depends
+on the delivery order. -/
+theorem order_details_roll_back_witness :
+    let o5 : Open := ⟨1, 5, 0⟩
+    let o2 : Open := ⟨1, 2, 0⟩
+    let cancelled : Op := .snapshot ⟨7, 10, 100, .inactive .cancelled, 0⟩
+    metaOf (stateOf (run [] [snapOpen 7 10 100 o5]) 7) = some o5 ∧
+    metaOf (stateOf (run [] [snapOpen 7 10 100 o5, cancelled, snapOpen 7 10 100 o2]) 7) = some o2 ∧
+    o2.t < o5.t ∧
+    stateOf (run [] [snapOpen 7 10 100 o2, snapOpen 7 10 100 o5, cancelled]) 7 = none := by
+  decide +kernel
+
+/-- the same witness in the vocabulary of the positive theorems: the history is
+`[report o5, finished cancelled, report o2]`, its episode register holds `o2` (the only report since
+the episode ended), whereas the plain `<=` register over ALL its open reports — the literal property —
+holds `o5`. -/
+theorem order_details_roll_back_registers :
+    let evs : List EpisodeEv := [.report ⟨1, 5, 0⟩, .finished .cancelled, .report ⟨1, 2, 0⟩]
+    (episodeRegister 10 none evs).map (·.2) = some ⟨1, 2, 0⟩ ∧
+    (deliver false none ((episodeReports evs).map openMsg)).map (·.2) = some ⟨1, 5, 0⟩ := by
+  decide +kernel
+
+/-! Non-vacuity of the added statements -/
+example : ExchangeConfirmed (stateOf ([] : Orders) 7) := Or.inl rfl
+example : (EpisodeEv.finished .cancelled).ends 10 = true ∧
+    (∀ ev ∈ [EpisodeEv.report ⟨1, 2, 0⟩, .cancelSent, .cancelFailed, .report ⟨1, 1, 5⟩], ev.ends 10 = false) := by
+  decide +kernel
+example : heldMeta (stateOf (run [] (([EpisodeEv.report ⟨1, 5, 0⟩] ++ EpisodeEv.finished .cancelled ::
+    [EpisodeEv.report ⟨1, 2, 0⟩, EpisodeEv.cancelSent, EpisodeEv.cancelFailed,
+     EpisodeEv.report ⟨1, 1, 5⟩]).map (EpisodeEv.toOp 7 10 100))) 7)
+    = some ⟨1, 2, 0⟩ := by decide +kernel
 
 end BarterModel.Props.C09
